@@ -50,9 +50,9 @@ def header_view_record(fb, cls):
     ok = False
     from .facts import single_return_expr
     e = single_return_expr(g)  # (named intermediate steps — `void* raw = data(); return static_cast<Header*>(raw);` — are one expression)
-    if e is not None and strip_all_casts(e).get("k") == "call" and (strip_all_casts(e).get("callee") or {}).get("nm") != "data":
+    if e is not None and strip(e).get("k") == "call" and (strip(e).get("callee") or {}).get("nm") != "data":
         from .facts import inline_accessor
-        y = inline_accessor(fb, strip_all_casts(e))  # a shared helper `headerAs<Header>()` that does the cast
+        y = inline_accessor(fb, strip(e))  # a shared helper `headerAs<Header>()` that does the cast
         if y is not None:
             e = y
     if e is not None:
